@@ -33,7 +33,7 @@ CONSTANTS
   MaxStray,            \* total stray datagrams
   MaxEnter,            \* calls start at now <= MaxEnter
   MaxDelay,            \* controller reply delay bound (T-1: always timely)
-  PeerFaults,          \* subset of {"silence","refused","reset","blackhole"} the controller side may choose instead of replying
+  PeerFaults,          \* subset of {"silence","refused","reset","closed","blackhole"} the controller side may choose instead of replying
                        \* (blackhole: TCP only - the SYN is never answered, the connect itself must give up at the deadline;
                        \*  slowstall: TCP only - the handshake completes only after a delay, then the peer accepts and stalls:
                        \*  dial, write and read share ONE absolute deadline taken when the dial starts)
@@ -112,9 +112,9 @@ Lock(c) ==
 ReplySeqs == UNION {[1..n -> ReplyClasses \X (0..MaxDelay)] : n \in 1..MaxReplies}
 Ordered(s) == \A i \in 1..(Len(s) - 1) : s[i][2] <= s[i + 1][2]
 Plans(c) == (IF Path(c) = "tcp" /\ "slowstall" \in PeerFaults THEN {<<<<"slowstall", cd>>>> : cd \in 1..(T - 1)} ELSE {}) \cup
-            {<<<<f, 0>>>> : f \in PeerFaults \cap (IF Path(c) = "tcp" THEN {"silence", "refused", "reset", "blackhole"} ELSE IF Path(c) = "udp" THEN {"silence", "refused"} ELSE {"silence"})}
+            {<<<<f, 0>>>> : f \in PeerFaults \cap (IF Path(c) = "tcp" THEN {"silence", "refused", "reset", "closed", "blackhole"} ELSE IF Path(c) = "udp" THEN {"silence", "refused"} ELSE {"silence"})}
             \cup {s \in ReplySeqs : Ordered(s)}
-IsFault(p) == Len(p) = 1 /\ p[1][1] \in {"silence", "refused", "reset", "blackhole", "slowstall"}
+IsFault(p) == Len(p) = 1 /\ p[1][1] \in {"silence", "refused", "reset", "closed", "blackhole", "slowstall"}
 
 \* a fixed port that is still held by an open socket cannot be bound again (the OS port table)
 PortBusy(c) == FixedPort /\ open # {}
@@ -226,9 +226,10 @@ Timeout(c) ==
   /\ pc' = [pc EXCEPT ![c] = "closing"]
   /\ UNCHANGED <<now, guard, dl, askedAt, q, open, pend, plan, strays, sends, hist>>
 
-\* TCP reset / ICMP port unreachable: the read fails at once
+\* TCP reset / ICMP port unreachable / the TCP peer closes the connection without having sent a byte ("closed": an orderly
+\* end of stream is no reply - the call fails, it does not report a result): the read fails at once
 PeerErr(c) ==
-  /\ pc[c] = "sent" /\ plan[c] # <<>> /\ plan[c][1][1] \in {"reset", "refused"}
+  /\ pc[c] = "sent" /\ plan[c] # <<>> /\ plan[c][1][1] \in {"reset", "refused", "closed"}
   /\ out' = [out EXCEPT ![c] = [kind |-> "peererr", from |-> None, cls |-> plan[c][1][1], at |-> now]]
   /\ pc' = [pc EXCEPT ![c] = "closing"]
   /\ UNCHANGED <<now, guard, dl, askedAt, q, open, pend, plan, strays, sends, hist>>
@@ -252,7 +253,7 @@ Return(c) ==
 \* ---- time ----------------------------------------------------------------------------------------
 Urgent ==
   \/ \E p \in pend : p.at <= now
-  \/ \E c \in Calls : pc[c] = "sent" /\ (q[c] # <<>> \/ now >= dl[c] \/ (plan[c] # <<>> /\ plan[c][1][1] \in {"reset", "refused"}))
+  \/ \E c \in Calls : pc[c] = "sent" /\ (q[c] # <<>> \/ now >= dl[c] \/ (plan[c] # <<>> /\ plan[c][1][1] \in {"reset", "refused", "closed"}))
   \/ \E c \in Calls : pc[c] \in {"closing", "locked", "returning"}
   \/ \E c \in Calls : pc[c] = "dialing" /\ (now >= askedAt[c] + plan[c][1][2] \/ now >= dl[c])
   \/ \E c \in Calls : pc[c] = "entered" /\ (CanLock(c) \/ ~NeedsGuard)
